@@ -84,7 +84,7 @@ const reFlags = Object.getOwnPropertyDescriptor(RegExp.prototype, 'flags').get;
 function newRun(job, resp, side) {
   const R = {
     side, resp: resp && typeof resp === 'object' ? resp : {},
-    log: [], effs: [], hooks: [], overflow: false, depth: 0, shadow: false, lastPrim: new Map(),
+    log: [], effs: [], hooks: [], overflow: false, depth: 0, shadow: false, primHist: [], shadowPtr: 0, proxies: new WeakSet(),
     counters: new Map(),
     ids: new WeakMap(),      // membrane proxy / named realm object -> canonical id
     targets: new WeakMap(),  // proxy target -> { id, proxy }
@@ -179,12 +179,12 @@ function newRun(job, resp, side) {
         if (key === Symbol.toPrimitive) {
           return (hint) => {
             // shadow mode (hook self-check): replay the last real coercion result, log nothing
-            if (R.shadow) return R.lastPrim.has(id) ? R.lastPrim.get(id) : '<' + id + '>';
+            if (R.shadow) return R.shadowPtr < R.primHist.length ? R.primHist[R.shadowPtr++] : '<' + id + '>';
             const n = count('prim|' + id);
             emit({ e: 'prim', o: id, h: String(hint) }, 'prim:' + id + '#' + n);
             const v = answer('prim:' + id + '#' + n, 'prim', () => '<' + id + '>');
             const res = (v !== null && (typeof v === 'object' || typeof v === 'function')) ? '<' + id + '>' : v;
-            R.lastPrim.set(id, res);
+            R.primHist.push(res);
             return res;
           };
         }
@@ -261,6 +261,7 @@ function newRun(job, resp, side) {
     const proxy = new Proxy(target, handler);
     R.targets.set(target, { id, proxy });
     R.ids.set(proxy, id);
+    R.proxies.add(proxy);
     return proxy;
   }
 
@@ -321,26 +322,43 @@ function newRun(job, resp, side) {
             //            against its call event by the TLA+ decider ("log")
             const kind = (job.hookkinds || {})[name];
             let check = 'skip';
+            const isMem = (v) => v !== null && (typeof v === 'object' || typeof v === 'function') && R.proxies.has(v);
+            const isPlainObj = (v) => v !== null && (typeof v === 'object' || typeof v === 'function') && !R.proxies.has(v);
+            const isPrim = (v) => v === null || (typeof v !== 'object' && typeof v !== 'function');
             if (kind && !R.shadow) {
               R.shadow = true;
               try {
+                const ops = args.slice(1);
                 if (kind === 'plus') {
-                  check = args.length === 3 && repr(args[1] + args[2]) === repr(args[0]) ? 'ok' : 'mismatch';
+                  if (args.length !== 3) check = 'mismatch';
+                  else if (ops.some(isPlainObj)) check = 'skip';      // program-made objects coerce through code of their own
+                  else {
+                    // the operation has just coerced its membrane operands, in order: replay exactly those results
+                    R.shadowPtr = R.primHist.length - ops.filter(isMem).length;
+                    check = repr(args[1] + args[2]) === repr(args[0]) ? 'ok' : 'mismatch';
+                  }
                 } else if (kind === 'tpl') {
-                  const text = String(args[0]);
-                  let pos = 0; check = 'ok';
-                  for (let i = 1; i < args.length; i++) {
-                    const piece = typeof args[i] === 'symbol' ? null : String(args[i]);
-                    const at = piece === null ? -1 : text.indexOf(piece, pos);
-                    if (at < 0) { check = 'mismatch'; break; }
-                    pos = at + piece.length;
+                  if (ops.some(isPlainObj) || ops.some((v) => typeof v === 'symbol')) check = 'skip';
+                  else {
+                    R.shadowPtr = R.primHist.length - ops.filter(isMem).length;
+                    const text = String(args[0]);
+                    let pos = 0; check = 'ok';
+                    for (let i = 1; i < args.length; i++) {
+                      const piece = String(args[i]);
+                      const at = text.indexOf(piece, pos);
+                      if (at < 0) { check = 'mismatch'; break; }
+                      pos = at + piece.length;
+                    }
                   }
                 } else if (kind === 'method') {
                   const fn = args[1];
                   if (args.length < 3) check = 'mismatch';
-                  else if (typeof fn === 'function' && R.ids.get(fn) === undefined && /\{\s*\[native code\]\s*\}$/.test(Function.prototype.toString.call(fn))) {
+                  else if (typeof fn === 'function' && R.proxies.has(fn)) check = 'log';
+                  else if (typeof fn === 'function' && /\{\s*\[native code\]\s*\}$/.test(Function.prototype.toString.call(fn)) &&
+                           args.slice(2).every(isPrim)) {
+                    // a native method on primitives only: re-applying it is pure
                     check = repr(Reflect.apply(fn, args[2], args.slice(3))) === repr(args[0]) ? 'ok' : 'mismatch';
-                  } else if (R.ids.get(fn) !== undefined) check = 'log';
+                  }
                 }
               } catch (e) { if (e === OVERFLOW) throw e; check = 'skip'; } finally { R.shadow = false; }
             }
